@@ -76,7 +76,7 @@ def statement_check(ctx, scn, run, i, case):
 
 def run(ctx):
     rnd = ctx.rnd
-    ctx.rule = ("row sequences of 0-10 rows over key alphabets of size 2-3 (duplicates at every pair of positions), key sets of 1-3 fields, "
+    ctx.rule = ("row sequences of 0-10 rows over key alphabets of size 2-3 (duplicates at every pair of positions), key sets of 1-3 fields (a third of them may be empty, the empty cell being one more key value), "
                 "DistinctCount with all six operators x thresholds 0-4, interleaved rows rejected by a field or by another check, one or two checks in either order, "
                 "three error modes; statement evaluated on the implementation's trace + model comparison; distinct = distinct (CID, table, mode); "
                 "non-trivial = at least two data rows")
@@ -86,10 +86,14 @@ def run(ctx):
         nf = rnd.randint(1, 3)
         fields = []
         for j in range(nf):
+            # a third of the fields may be empty: the empty cell is then one more key value (also for keys made of empty cells only)
+            may_be_empty = rnd.random() < 0.35
+            extra = [""] if may_be_empty else []
             if rnd.random() < 0.7:
-                fields.append({"name": "f%d" % j, "type": "Integer", "empty": False, "length": "", "rule": "1...3", "good": ["1", "2", "3"][:rnd.randint(2, 3)], "bad": ["x", "9"]})
+                fields.append({"name": "f%d" % j, "type": "Integer", "empty": may_be_empty, "length": "", "rule": "1...3",
+                               "good": ["1", "2", "3"][:rnd.randint(2, 3)] + extra, "bad": ["x", "9"]})
             else:
-                fields.append({"name": "f%d" % j, "type": "Scripted", "empty": False, "length": "", "rule": "", "good": ["a", "b"], "bad": ["a!"]})
+                fields.append({"name": "f%d" % j, "type": "Scripted", "empty": may_be_empty, "length": "", "rule": "", "good": ["a", "b"] + extra, "bad": ["a!"]})
         checks = []
         kinds = rnd.choice([["U"], ["D"], ["U", "D"], ["D", "U"], ["U", "U"], ["S", "U"], ["U", "S"], ["U", "D", "S"]])
         for kind in kinds:
